@@ -633,5 +633,27 @@ func (c *Ctx) checkOwnerLoop(fn *ssa.Function, listTrace string, allowBootstrap 
 			bad = "the success return"
 		}
 	}
+	if !allowBootstrap && bad == "" {
+		// collateral: every input of the list, whatever locks it, continues only through a witness hit
+		if h := loopHeadOf(ta.Block()); h != nil {
+			var body []*ssa.BasicBlock
+			for _, s := range h.Succs {
+				if reachesBlock(s, h) {
+					body = append(body, s)
+				}
+			}
+			r2 := psReach(fn, body, cut)
+			why := ""
+			if r2[h] {
+				why = "the next input"
+			}
+			for _, r := range successReturns(fn) {
+				if r2[r.Block()] {
+					why = "the success return"
+				}
+			}
+			c.Check(why == "" && len(body) > 0, "owner-witnessed", key+":every-listed-input", ta.Pos(), "every input of the list lets validation continue only through a witness hit for its own key hash", "an input of the list can reach "+why+" without a verification-key hit for its owner: an input that is not key-locked (script, Byron) or whose owner did not sign is accepted")
+		}
+	}
 	c.Check(bad == "", "owner-witnessed", key+":every-key-locked-input", ta.Pos(), "a key-locked input lets validation continue only through a witness hit for its own hash (flags tracked per path)", "a key-locked input can reach "+bad+" without a verification-key hit or a bootstrap witness deriving its hash in this iteration: an input whose owner did not sign is accepted")
 }
